@@ -324,13 +324,13 @@ pub struct EngResult {
     pub second: Option<(u32, u64)>,
 }
 
-struct Arena {
-    base: *mut u8,
-    data_pages: usize,
+pub struct Arena {
+    pub base: *mut u8,
+    pub data_pages: usize,
 }
 
 impl Arena {
-    fn new(data_pages: usize, shared: bool) -> Arena {
+    pub fn new(data_pages: usize, shared: bool) -> Arena {
         unsafe {
             let total = (data_pages + 2) * PAGE;
             let flags = libc::MAP_ANONYMOUS | if shared { libc::MAP_SHARED } else { libc::MAP_PRIVATE };
@@ -342,14 +342,14 @@ impl Arena {
             Arena { base, data_pages }
         }
     }
-    fn data_start(&self) -> *mut u8 {
+    pub fn data_start(&self) -> *mut u8 {
         unsafe { self.base.add(PAGE) }
     }
-    fn data_end(&self) -> *mut u8 {
+    pub fn data_end(&self) -> *mut u8 {
         unsafe { self.base.add(PAGE + self.data_pages * PAGE) }
     }
     /// Address of a buffer of `len` bytes placed against the leading or trailing guard page.
-    fn place(&self, len: usize, at_end: bool) -> *mut u8 {
+    pub fn place(&self, len: usize, at_end: bool) -> *mut u8 {
         assert!(len <= self.data_pages * PAGE);
         if at_end {
             unsafe { self.data_end().sub(len) }
@@ -357,7 +357,7 @@ impl Arena {
             self.data_start()
         }
     }
-    fn fill(&self, byte: u8) {
+    pub fn fill(&self, byte: u8) {
         unsafe { std::ptr::write_bytes(self.data_start(), byte, self.data_pages * PAGE) }
     }
 }
